@@ -146,10 +146,10 @@ def base_lines(tier):
                 key = (a.get("mnemonic"), a.get("form"), a.get("width"), a.get("path"), a.get("kw"), a.get("base"), a.get("index"),
                        a.get("scale"), a.get("dclass"), a.get("dsign"), a.get("sfit"), a.get("ufit"), a.get("spelling"), a.get("dk"))
             else:
-                key = (a.get("mnemonic"), a.get("form"), a.get("width") if a.get("mnemonic") in ("mov", "push", "imul", "test") else "",
+                key = (a.get("mnemonic"), a.get("form"), a.get("width"),
                        a.get("path"), a.get("kw"), (a.get("base") or "")[:2],
                        ("sp" if str(a.get("index", "none")).startswith("sp") else "i") if a.get("index", "none") != "none" else "",
-                       a.get("dsign"), a.get("ufit"), a.get("spelling"))
+                       a.get("dsign"), a.get("ufit"), a.get("spelling"), a.get("one"), a.get("dk"))
             if key not in seen:
                 seen[key] = c
     out = []
